@@ -1,6 +1,7 @@
 package main
 
 import (
+	"go/types"
 	"strings"
 	"unicode"
 
@@ -176,4 +177,101 @@ func init() {
 	}
 	intrinsics["sort.Slice"] = sortSlice(12)
 	intrinsics["sort.SliceStable"] = sortSlice(20)
+}
+
+// hasMethod: the method set of t has a method called name.
+func (m *Machine) hasMethod(t types.Type, name string) bool {
+	ms := m.prog.MethodSets.MethodSet(t)
+	for k := 0; k < ms.Len(); k++ {
+		if ms.At(k).Obj().Name() == name {
+			return true
+		}
+	}
+	return false
+}
+
+func init() {
+	// errors.Is without reflectlite: identity on the chain of Unwrap() error (an Is method is honoured).
+	intrinsics["errors.Is"] = func(m *Machine, fr *frame, fn *ssa.Function, a []Value) Value {
+		err, ok1 := a[0].(Iface)
+		target, ok2 := a[1].(Iface)
+		if !ok1 || !ok2 {
+			unsupported("errors.Is on %T, %T", a[0], a[1])
+		}
+		if err.T == nil || target.T == nil {
+			return Bool{B: err.T == nil && target.T == nil}
+		}
+		for depth := 0; depth < 16; depth++ {
+			if err.T == nil {
+				return Bool{B: false}
+			}
+			if types.Identical(err.T, target.T) || err.T == target.T {
+				if m.branchIn(fr, m.equal(err, target)) {
+					return Bool{B: true}
+				}
+			}
+			if err.T != rtErrType && err.T != opaqueErrType {
+				if m.hasMethod(err.T, "Is") {
+					if r, ok := m.invoke(fr, err, "Is", target).(Bool); ok && m.branchIn(fr, r) {
+						return Bool{B: true}
+					}
+				}
+				if m.hasMethod(err.T, "Unwrap") {
+					next, ok := m.invoke(fr, err, "Unwrap").(Iface)
+					if !ok {
+						unsupported("errors.Is: Unwrap returning a list")
+					}
+					err = next
+					continue
+				}
+			}
+			return Bool{B: false}
+		}
+		return Bool{B: false}
+	}
+}
+
+func init() {
+	// the rest of sync.Map (Load/Store/LoadOrStore/Delete are in intrinsics.go)
+	intrinsics["(*sync.Map).Clear"] = func(m *Machine, fr *frame, fn *ssa.Function, a []Value) Value {
+		mp := m.syncMap(a[0])
+		for i := range mp.keys {
+			mp.live[i] = false
+		}
+		mp.idx = map[any]int{}
+		mp.n = 0
+		return nil
+	}
+	intrinsics["(*sync.Map).LoadAndDelete"] = func(m *Machine, fr *frame, fn *ssa.Function, a []Value) Value {
+		mp := m.syncMap(a[0])
+		if i := m.mapFind(mp, a[1]); i >= 0 {
+			v := mp.vals[i]
+			m.mapDelete(mp, a[1])
+			return Tuple{v, Bool{B: true}}
+		}
+		return Tuple{Iface{}, Bool{B: false}}
+	}
+	intrinsics["(*sync.Map).Swap"] = func(m *Machine, fr *frame, fn *ssa.Function, a []Value) Value {
+		mp := m.syncMap(a[0])
+		var prev Value = Iface{}
+		loaded := false
+		if i := m.mapFind(mp, a[1]); i >= 0 {
+			prev, loaded = mp.vals[i], true
+		}
+		m.mapUpdate(mp, a[1], a[2])
+		return Tuple{prev, Bool{B: loaded}}
+	}
+	intrinsics["(*sync.Map).Range"] = func(m *Machine, fr *frame, fn *ssa.Function, a []Value) Value {
+		mp := m.syncMap(a[0])
+		n := len(mp.keys)
+		for i := 0; i < n; i++ {
+			if !mp.live[i] {
+				continue
+			}
+			if r, ok := m.callValue(fr, a[1], []Value{mp.keys[i], mp.vals[i]}).(Bool); ok && !m.branchIn(fr, r) {
+				break
+			}
+		}
+		return nil
+	}
 }
